@@ -15,7 +15,7 @@ RULE = (
     "(visible padding character, visible vertical separators), per-column alignments, terminal width 20..200, "
     "indentation 0..8, ANSI / plain; only tables whose width leaves >= 1 character per column beside borders and cell "
     "padding are generated (computed constructively). wrapper: bounded-exhaustive CellWrapper.fit over 2-3 columns x "
-    "natural lengths in {1,3,8,15,30,60} x every available width from the column count to 60. Non-trivial: a cell "
+    "natural lengths in {1,3,8,15,30,60} x every available width from the column count to 60. the table is filled through add_rows / set_rows / add_row / set_row (all four must give the same rendering). Non-trivial: a cell "
     "wraps, a word is longer than its column, or >= 2 long columns. Distinct by hash (tables) / by construction (wrapper)."
 )
 ASSUMPTIONS = [
@@ -85,11 +85,23 @@ def check_table(ctx, case):
              + (["c14:wraps"] if wraps else []) + (["c14:long-columns-%d" % min(long_cols, 3)] if wraps else []))
     snapshot = copy.deepcopy([header, rows])
 
-    def build():
+    def build(how="add_rows"):
+        """The same table through the different row operations: they all lead to the same table."""
         t = Table(make_style(case["style"]))
         if header:
             t.set_header_row(header)
-        t.add_rows(rows)
+        if how == "set_rows":
+            t.add_row(["old"] * ncols)
+            t.set_rows(rows)
+        elif how == "add_row":
+            for r in rows:
+                t.add_row(r)
+        elif how == "set_row":
+            t.add_rows([["placeholder %d" % i] * ncols for i in range(len(rows))])
+            for i in reversed(range(len(rows))):
+                t.set_row(i, rows[i])
+        else:
+            t.add_rows(rows)
         return t
 
     def render(t=None, w=width):
@@ -98,7 +110,7 @@ def check_table(ctx, case):
         (t or build()).render(io, indent)
         return io.fetch_output()
 
-    table = build()
+    table = build(case.get("build", "add_rows"))
 
     def fail(clause, expected, observed, sig=None, exc=None):
         ctx.fail("table", clause, case, expected, observed, sig=sig, exc=exc)
@@ -271,7 +283,11 @@ def table_case(draw):
     if style["custom"]:
         # keep cell text free of the customised padding / separator characters
         rows = [[c.replace(".", "").replace("!", "") for c in r] for r in rows]
-    return {"rows": rows, "header": header, "style": style, "width": width, "indent": indent, "ansi": draw(st.booleans())}
+    case = {"rows": rows, "header": header, "style": style, "width": width, "indent": indent, "ansi": draw(st.booleans())}
+    how = draw(st.sampled_from(["add_rows", "add_rows", "set_rows", "add_row", "set_row"]))
+    if how != "add_rows":
+        case["build"] = how
+    return case
 
 
 def shard_wrapper(ctx, arg):
